@@ -238,7 +238,7 @@ func Variant(r *rand.Rand, s *Schema, doc *Doc, vals map[string]*Val, kind strin
 						fr, fi = f, k
 					}
 				}
-				if fr == nil || hasDefer(x.Spread.Dirs) {
+				if fr == nil || hasDefer(x.Spread.Dirs) || hasCustom(x.Spread.Dirs) || hasCustom(fr.Dirs) {
 					continue
 				}
 				(*site.sels)[i] = &Sel{Inline: &InlineFrag{On: fr.On, Dirs: x.Spread.Dirs, Sel: fr.Sel, Parent: site.parent}}
@@ -249,7 +249,7 @@ func Variant(r *rand.Rand, s *Schema, doc *Doc, vals map[string]*Val, kind strin
 		// or the other direction: an inline fragment with a type condition becomes a named fragment
 		for _, site := range d.sites(s) {
 			for i, x := range *site.sels {
-				if x.Inline == nil || x.Inline.On == "" || hasDefer(x.Inline.Dirs) {
+				if x.Inline == nil || x.Inline.On == "" || hasDefer(x.Inline.Dirs) || hasCustom(x.Inline.Dirs) {
 					continue
 				}
 				fr := &Frag{Name: fmt.Sprintf("VF%d", r.IntN(1000)), On: x.Inline.On, Sel: x.Inline.Sel}
@@ -461,6 +461,56 @@ func UnionFragmentInNonUnionParent(s *Schema, doc *Doc) bool {
 	}
 	for _, f := range doc.Frags {
 		walk(f.Sel, f.On)
+	}
+	return found
+}
+
+// hasCustom: a directive other than @skip/@include/@defer (a schema-defined one, whose allowed
+// locations a named<->inline rewrite might not respect).
+func hasCustom(dirs []*Dir) bool {
+	for _, d := range dirs {
+		if d.Name != "skip" && d.Name != "include" && d.Name != "defer" {
+			return true
+		}
+	}
+	return false
+}
+
+// SpreadDirectiveNotForInline: some fragment spread of the document carries a schema-defined directive
+// whose definition does not list INLINE_FRAGMENT (it is valid where it is written; normalisation
+// turns the spread into an inline fragment and keeps the directive).
+func SpreadDirectiveNotForInline(s *Schema, doc *Doc) bool {
+	allowed := map[string]bool{"skip": true, "include": true, "defer": true}
+	for _, d := range s.Directives {
+		for _, l := range d.Locations {
+			if l == "INLINE_FRAGMENT" {
+				allowed[d.Name] = true
+			}
+		}
+	}
+	found := false
+	var walk func(sels []*Sel)
+	walk = func(sels []*Sel) {
+		for _, x := range sels {
+			switch {
+			case x.Field != nil:
+				walk(x.Field.Sel)
+			case x.Inline != nil:
+				walk(x.Inline.Sel)
+			case x.Spread != nil:
+				for _, d := range x.Spread.Dirs {
+					if !allowed[d.Name] {
+						found = true
+					}
+				}
+			}
+		}
+	}
+	for _, o := range doc.Ops {
+		walk(o.Sel)
+	}
+	for _, f := range doc.Frags {
+		walk(f.Sel)
 	}
 	return found
 }
